@@ -1049,7 +1049,31 @@ func (in *Interp) checkAlloc(fr *frame, instr *ssa.MakeSlice, ln *smt.Term) {
 
 // ---------------------------------------------------------------- maps
 
+// checkHashable panics like the runtime does when a map key holds an interface whose dynamic type is not comparable.
+func (in *Interp) checkHashable(k value) {
+	switch kv := k.(type) {
+	case iface:
+		if kv.t == nil {
+			return
+		}
+		switch kv.t.Underlying().(type) {
+		case *types.Slice, *types.Map, *types.Signature:
+			panic(goPanic{msg: "runtime error: hash of unhashable type " + kv.t.String()})
+		}
+		in.checkHashable(kv.v)
+	case structure:
+		for _, f := range kv {
+			in.checkHashable(f)
+		}
+	case array:
+		for _, f := range kv {
+			in.checkHashable(f)
+		}
+	}
+}
+
 func (in *Interp) mapFind(m *mapV, k value, label string) *mapEntry {
+	in.checkHashable(k)
 	if m == nil {
 		return nil
 	}
